@@ -45,6 +45,9 @@ def run(db, rep, tier):
     r4(db, rep, pp)
     r5(db, rep)
     r6(db, rep, pp)
+    rep.rule("R7-state-always", "a flow updates its connection state from EVERY TCP segment: update_state() is not guarded by anything but the "
+                                "presence of a TCP layer (ignoring a direction's data must not hide its SYN / FIN / RST)", 1)
+    r6_state(db, rep)
     rep.explanation = ("Decides the structural clauses of C07 by path rules on the clang CFG and by truth tables compared with "
                        "the formulas the property text fixes (flow states and flags are touched only through ==/has_flags, so "
                        "the tables are complete). The equality of the callback trace with a reference connection table over "
@@ -342,3 +345,34 @@ def r6(db, rep, pp):
         rep.violation("R6-formulas", "Flow::update_state", facts.loc(us), bad + ": the connection is then not forgotten when a side resets/closes")
     else:
         rep.ok("R6-formulas", "Flow::update_state", facts.loc(us), "FIN => FIN_SENT and RST => RST_SENT on all %d rows, whatever the handshake state / other flags" % len(table))
+
+
+def r6_state(db, rep):
+    from vlib import cond
+    fs = [f for f in db.fns_named("Tins::TCPIP::Flow::process_packet") if f.get("body")]
+    if not fs:
+        rep.analysis_broken("Flow::process_packet vanished")
+        return
+    f = fs[0]
+    g = cfg.FnCFG(f)
+    calls = [x for x in facts.fn_nodes(f) if x["k"] == "CXXMemberCallExpr" and x.get("cname") == "update_state"]
+    key = "Flow::process_packet:update_state"
+    if len(calls) != 1:
+        rep.violation("R7-state-always", key, facts.loc(f), "expected exactly one update_state() call, found %d" % len(calls))
+        return
+    tcpv = None
+    for a in facts.walk(calls[0]["c"][1]):
+        if a["k"] == "DeclRefExpr" and a.get("var"):
+            tcpv = a["var"]
+    bad = None
+    for op, l, r in cond.guards_facts(g, g.pos(calls[0])):
+        names = [y.get("var") for y in facts.walk(l) if y["k"] == "DeclRefExpr"] + ([y.get("var") for y in facts.walk(r) if y["k"] == "DeclRefExpr"] if r is not None else [])
+        if names and all(nv == tcpv for nv in names) and not any(y["k"] == "MemberExpr" for y in facts.walk(l)):
+            continue
+        bad = "%s %s %s" % (facts.expr_str(l), op, facts.expr_str(r) if r is not None else "")
+    if bad:
+        rep.violation("R7-state-always", key, facts.loc(f, calls[0]),
+                      "update_state() is only reached when `%s`: segments filtered out before it can carry SYN, FIN or RST, so the connection is "
+                      "never seen to open or close" % bad)
+    else:
+        rep.ok("R7-state-always", key, facts.loc(f, calls[0]), "guarded only by the presence of the TCP layer")
